@@ -311,6 +311,11 @@ func runC09(w *W) {
 			}
 		}
 	}
+	// ---------- sequences through one long-lived configuration
+	for _, pin := range []string{"sha256-hit", "sha512-hit", "sha224-hit", "sha384-hit", "miss-then-hit", "hit-then-miss", "miss32"} {
+		pin := pin
+		w.Case("Lseq pins="+pin, func() CaseOut { return c09Sequences(p, pin, w.Thorough()) })
+	}
 	// ---------- level 2: real crypto/tls handshakes with the configurations receptor builds
 	for _, is := range c09Issuers {
 		for _, va := range c09Validities {
@@ -338,6 +343,118 @@ func runC09(w *W) {
 			}
 		}
 	}
+}
+
+// c09Sequences: one long-lived configuration judges several peers in a row (a listener serves many clients,
+// a dialer re-dials with the configuration it fetched once). Oracle: the verdict on a certificate does not
+// depend on which certificates the same configuration judged before (differential against a fresh one, whose
+// verdicts level 1 compares with the statement).
+func c09Sequences(p *c09PKI, pin string, thorough bool) CaseOut {
+	var out CaseOut
+	out.Nontrivial = true
+	good := c09CertSpec{"trusted", "valid", "both", "dns+id"}
+	menu := []c09Cert{p.make(good), p.make(good), p.make(c09CertSpec{"trusted", "expired", "both", "dns+id"}), p.make(c09CertSpec{"other", "valid", "both", "dns+id"})}
+	names := []string{"A(pinned)", "B(trusted, not pinned)", "C(expired)", "D(other CA)"}
+	pins := c09PinList(pin, menu[0].der)
+	maxLen := 3
+	var seqs [][]int
+	var rec func(q []int)
+	rec = func(q []int) {
+		if len(q) > 1 {
+			seqs = append(seqs, append([]int{}, q...))
+		}
+		if len(q) == maxLen {
+			return
+		}
+		for i := range menu {
+			rec(append(q, i))
+		}
+	}
+	rec(nil)
+	for _, role := range []string{"server", "client"} {
+		vt := netceptor.VerifyServer
+		if role == "client" {
+			vt = netceptor.VerifyClient
+		}
+		mk := func() func([][]byte, [][]*x509.Certificate) error {
+			cfg := &tls.Config{RootCAs: p.pool, ClientCAs: p.pool}
+			return netceptor.ReceptorVerifyFunc(cfg, pins, c09Expected, netceptor.ExpectedHostnameTypeReceptor, vt, quietLogger())
+		}
+		fresh := make([]bool, len(menu))
+		for i, c := range menu {
+			fresh[i] = mk()([][]byte{c.der}, nil) == nil
+		}
+		if !fresh[0] && pin != "miss32" {
+			out.violate("tls:seq:pinned-cert-rejected:"+role, "pins=%s role=%s: the pinned certificate is rejected by a fresh configuration", pin, role)
+		}
+		for _, q := range seqs {
+			f := mk()
+			for step, i := range q {
+				got := f([][]byte{menu[i].der}, nil) == nil
+				out.count("sequence_decisions", 1)
+				if got != fresh[i] {
+					var hist []string
+					for _, j := range q[:step] {
+						hist = append(hist, names[j])
+					}
+					kind := "accepted-after-history"
+					if !got {
+						kind = "rejected-after-history"
+					}
+					out.violate("tls:seq:"+kind+":"+role, "pins=%s role=%s: certificate %s is judged %v by a fresh configuration but %v after the same configuration judged %v", pin, role, names[i], fresh[i], got, hist)
+				}
+			}
+		}
+	}
+	// the same with real handshakes through the configurations receptor builds
+	if pin == "sha256-hit" || pin == "sha512-hit" || pin == "miss-then-hit" || thorough {
+		dir, _ := os.MkdirTemp(p.dir, "seq-")
+		defer os.RemoveAll(dir)
+		own := p.make(good)
+		ownCert, ownKey := pemCertKey(dir, "own", own)
+		n := netceptor.New(nil, c09Expected)
+		n.Logger.SetOutput(nopWriter{})
+		defer n.Shutdown()
+		scfg := netceptor.TLSServerConfig{Name: "s", Cert: ownCert, Key: ownKey, RequireClientCert: true, ClientCAs: p.caFile, PinnedClientCert: hexPins(pins), SkipReceptorNamesCheck: true}
+		sv, err := scfg.PrepareTLSServerConfig(n)
+		ccfg := netceptor.TLSClientConfig{Name: "c", Cert: ownCert, Key: ownKey, RootCAs: p.caFile, PinnedServerCert: hexPins(pins), SkipReceptorNamesCheck: true}
+		base, fps, err2 := ccfg.PrepareTLSClientConfig(n)
+		if err == nil && err2 == nil {
+			n.SetClientTLSConfig("c", base, fps)
+			cl, err := n.GetClientTLSConfig("c", c09Expected, netceptor.ExpectedHostnameTypeReceptor)
+			if err != nil {
+				out.violate("tls:getclientconfig", "GetClientTLSConfig: %v", err)
+				return out
+			}
+			peer := func(i int) *tls.Config {
+				return &tls.Config{Certificates: []tls.Certificate{{Certificate: [][]byte{menu[i].der}, PrivateKey: menu[i].key}}, RootCAs: p.pool, ServerName: c09Expected, MinVersion: tls.VersionTLS12}
+			}
+			want := []bool{pin != "miss32", false, false, false}
+			for _, q := range [][]int{{0, 1}, {1, 0}, {0, 1, 0}, {0, 2}, {0, 3}, {0, 0, 1}} {
+				for step, i := range q {
+					// listener side: one server configuration, clients in a row
+					ok, _, _ := handshake(peer(i), sv)
+					out.count("sequence_handshakes", 1)
+					if ok != want[i] {
+						out.violate(fmt.Sprintf("tls:seq:handshake:client-cert-judged-%v-want-%v", ok, want[i]), "pins=%s: listener configuration, handshake #%d of sequence %v with client %s: accepted=%v", pin, step+1, q, names[i], ok)
+					}
+					// dialer side: the configuration fetched once, servers in a row
+					ok, _, _ = handshake(cl, peer(i))
+					out.count("sequence_handshakes", 1)
+					if ok != want[i] {
+						out.violate(fmt.Sprintf("tls:seq:handshake:server-cert-judged-%v-want-%v", ok, want[i]), "pins=%s: dialer configuration, handshake #%d of sequence %v with server %s: accepted=%v", pin, step+1, q, names[i], ok)
+					}
+				}
+				// a new sequence starts from fresh configurations
+				sv, _ = scfg.PrepareTLSServerConfig(n)
+				base, fps, _ = ccfg.PrepareTLSClientConfig(n)
+				n.SetClientTLSConfig("c", base, fps)
+				cl, _ = n.GetClientTLSConfig("c", c09Expected, netceptor.ExpectedHostnameTypeReceptor)
+			}
+		}
+	}
+	out.Outcome = "seq pin=" + pin
+	return out
 }
 
 func pemCertKey(dir, name string, c c09Cert) (certFile, keyFile string) {
@@ -489,7 +606,7 @@ func init() {
 		Level:     "exploration",
 		Technique: "exhaustive enumeration of the certificate x pin x role x name-mode product against the statement's conjunction: ReceptorVerifyFunc directly, real crypto/tls handshakes with the configs built by PrepareTLS*Config/GetClientTLSConfig, and a mutually authenticated stream listener between real nodes in a synctest bubble",
 		Rule: "certificates = {trusted, other CA, self-signed} x {valid, expired, not yet} x {server, client, both, absent, other EKU} x 8 name sets (expected ID, other, several incl/excl, none, DNS-only, DNS+ID, prefix/extension/case variants); " +
-			"pin lists = 11 kinds (none, sha224/256/384/512 hit, 32/64-byte miss, wrong length, miss-then-hit, hit-then-miss, two misses); roles server/client; name modes receptor/DNS/none. Level 1: all 360 x 66 decisions. Level 2: TLS handshakes (quick: certificates with at most one failing chain condition). Level 3: a stream listener requiring client certificates between two real nodes (QUIC in a bubble, one process per case): dialer IDs {plain, n:1, a:b:c, with space} x client certificate naming {own ID, another ID, none, the part before the first colon, both} x issuer {trusted, other}. Every case is non-trivial (a real certificate is built and judged).",
+			"pin lists = 11 kinds (none, sha224/256/384/512 hit, 32/64-byte miss, wrong length, miss-then-hit, hit-then-miss, two misses); roles server/client; name modes receptor/DNS/none. Level 1: all 360 x 66 decisions. Level 2: TLS handshakes (quick: certificates with at most one failing chain condition). Sequences: one long-lived verification function / listener configuration / dialer configuration judging every sequence of <=3 certificates from {pinned, trusted but not pinned, expired, other CA} for 7 pin lists, each verdict compared with a fresh configuration's. Level 3: a stream listener requiring client certificates between two real nodes (QUIC in a bubble, one process per case): dialer IDs {plain, n:1, a:b:c, with space} x client certificate naming {own ID, another ID, none, the part before the first colon, both} x issuer {trusted, other}. Every case is non-trivial (a real certificate is built and judged).",
 		Assumptions: []string{"absent EKU = unrestricted (RFC 5280)", "ECDSA P-256 leaf keys; x509 path building of Go's standard library is trusted"},
 		Run:         runC09,
 		Exec:        execC09,
